@@ -5,8 +5,12 @@
 //     power (left associativity); a projection's right-hand side continues on '.', '[' and '[?' and stops at
 //     every token binding looser than PROJECTION_STOP;
 //   * list elements, function arguments and key-value pairs are comma separated, multi-selects are non-empty,
-//     '(' after a left operand that is a Field node is a call, a quoted identifier cannot be a function name,
-//     the right-hand side of '.' is an identifier, '*', '{', '[' multi-select or '&';
+//     '(' directly after an unquoted identifier token is a call; neither a quoted identifier nor a parenthesised
+//     expression can be a function name,
+//     the right-hand side of '.' is an identifier, '*', '{', '[' multi-select;
+//   * DEVIATION (known finding D13, known_findings.json): the published grammar has expression-type = '&' expression
+//     only under function-arg; the implementation takes '&' as a prefix form of any expression and after '.', and
+//     this oracle follows it there (the two `Token::Ampersand` lines below) - the only place where it does;
 //   * bracket contents are an index, a slice with at most two colons, '*', or a multi-select list.
 // The functions return the tree SHAPE (no offsets, except the call offset = position of '(' and the slice
 // offset = position of the closing ']', which C12 constrains) and the remaining tokens.
@@ -112,7 +116,8 @@ pub open spec fn g_nud(ts: Toks) -> PR
         Token::Not => match g_expr(rest, bp(Token::Not)) { Some((e, r2)) => Some((Shape::Not(Box::new(e)), r2)), None => None },
         Token::Filter => g_filter(Shape::Identity, rest),
         Token::Lparen => match g_expr(rest, 0) {
-            Some((e, r2)) => if pk(r2, 0) == Token::Rparen && r2.len() > 0 { Some((e, adv(r2))) } else { None },   // parentheses add no node
+            // parentheses add no node; a function name is an unquoted identifier token, so '(' e ')' '(' is no sentence
+            Some((e, r2)) => if pk(r2, 0) == Token::Rparen && r2.len() > 0 && pk(adv(r2), 0) != Token::Lparen { Some((e, adv(r2))) } else { None },
             None => None,
         },
         _ => None,
